@@ -330,26 +330,34 @@ impl<'a> Ctx<'a> {
                 continue;
             }
             let cooked = ok_str(&ans[3 * i + 1]);
-            if cooked.as_deref() != Some(s.as_str()) {
-                let sig = if s.contains('\r') { "js:cooked-differs:carriage-return" } else { "js:cooked-differs" };
-                self.rep.fail("O", sig, &format!("text {} is written as {}; its cooked value is {:?}", show(s), show(&real), cooked), case.clone());
+            if s.contains('\r') {
+                // a raw CR is normalised to LF by template cooking; the writer does not escape it. The GraphQL printer never
+                // hands a CR to the writer (theorem `printString_no_cr`; the `server` stream checks descriptions with CR end to end)
+                self.rep.count("js:outside-O-domain(text contains CR)");
+                if cooked.as_deref() == Some(s.as_str()) {
+                    self.rep.notes.push(format!("unexpected: text with CR {} cooked back unchanged", show(s)));
+                }
+            } else if cooked.as_deref() != Some(s.as_str()) {
+                self.rep.fail("O", "js:cooked-differs", &format!("text {} is written as {}; its cooked value is {:?}", show(s), show(&real), cooked), case.clone());
             }
         }
     }
 
     // ---------------------------------------------------------------- string literals
     /// does `s` still fail the same way: printed in the same form (block / quoted) and not denoting `s`
-    fn string_fails_like(&mut self, s: &str, block: bool) -> bool {
+    fn string_fails_like(&mut self, s: &str, block: bool, not_a_token: bool) -> bool {
         let Ok(lit) = real_print_string(s) else { return false };
         if lit.starts_with("\"\"\"") != block {
             return false;
         }
-        let a = self.drv.one(&Sexp::call("gql.decode-string", vec![Sexp::str(lit.as_str())]));
-        ok_str(&a).as_deref() != Some(s)
+        let a = ok_str(&self.drv.one(&Sexp::call("gql.decode-string", vec![Sexp::str(lit.as_str())])));
+        a.is_none() == not_a_token && a.as_deref() != Some(s)
     }
 
     fn minimise_string(&mut self, s: &str) -> String {
-        let block = real_print_string(s).map(|l| l.starts_with("\"\"\"")).unwrap_or(false);
+        let lit = real_print_string(s).unwrap_or_default();
+        let block = lit.starts_with("\"\"\"");
+        let not_a_token = ok_str(&self.drv.one(&Sexp::call("gql.decode-string", vec![Sexp::str(lit.as_str())]))).is_none();
         let mut cur: Vec<char> = s.chars().collect();
         let mut progress = true;
         while progress {
@@ -359,7 +367,7 @@ impl<'a> Ctx<'a> {
                 let mut t = cur.clone();
                 t.remove(i);
                 let ts: String = t.iter().collect();
-                if self.string_fails_like(&ts, block) {
+                if self.string_fails_like(&ts, block, not_a_token) {
                     cur = t;
                     progress = true;
                 } else {
